@@ -6,8 +6,9 @@ descendants, "wildcard" = from every root state), scripted conditions, histories
 `queued=True` (callbacks then trigger further events), run on `HierarchicalMachine` (trace equality with the Lean
 model of the hierarchical engine + `model.state` after every call) and on the other five hierarchical classes,
 every trace judged by the verified ghost-bookkeeping monitor `C02.check` (Lean) and by a Python oracle that states
-the second sentence of the property directly.  Thorough tier adds the exhaustive small scope: every tree with
-<= 5 states (a sixth of those with 6) x compound kinds x one transition (global or local) x every initial state."""
+the second sentence of the property directly.  Thorough tier adds the small scope: EVERY tree with <= 4 states x
+compound kinds x one transition (global or local) x every state as initial (9 848 cases), a fifth of the 5-state layer
+and a 1/150 sample of the 6-state layer (the residue classes rotate with the seed)."""
 from .. import nested, nestedcheck
 from ..nestedcheck import NStream
 
@@ -24,21 +25,23 @@ def knobs_global():
     return nested.NKnobs(p_local=0.0, p_collide=0.0)
 
 
-def enum_small(idx, nchunks, limit):
-    return nestedcheck.enum_single(5, idx, nchunks, limit)
+def enum_le4(idx, nchunks, limit, seed):
+    return nestedcheck.enum_single(4, idx, nchunks, limit)
 
 
-def enum_six(idx, nchunks, limit):
-    # the 6-state layer is large: every chunk takes its residue class up to the limit
-    def gen():
-        n = 0
-        for d in nestedcheck.enum_single(6, idx, nchunks, 10 ** 9):
-            if len(d.walk()) == 6:
-                n += 1
-                if n > limit:
-                    return
-                yield d
-    return gen()
+def layer(nstates, stride):
+    """the trees with exactly `nstates` states: every `stride`-th residue class, rotated by the seed"""
+    def enum(idx, nchunks, limit, seed):
+        def gen():
+            n = 0
+            for d in nestedcheck.enum_single(nstates, (idx * stride + seed) % (nchunks * stride), nchunks * stride, 10 ** 9):
+                if len(d.walk()) == nstates:
+                    n += 1
+                    if n > limit:
+                        return
+                    yield d
+        return gen()
+    return enum
 
 
 class C02(nestedcheck.NestedCheck):
@@ -46,11 +49,12 @@ class C02(nestedcheck.NestedCheck):
     level = 'proof'
     monitor_kind = 'c02m'
     streams = (
-        NStream('random', knobs=knobs, quick=(16, 60), thorough=(64, 330)),
-        NStream('random-small', knobs=knobs_small, quick=(8, 60), thorough=(32, 300)),
-        NStream('global-only', knobs=knobs_global, quick=(8, 50), thorough=(32, 250)),
-        NStream('exhaustive<=5', enum=enum_small, thorough=(64, 4000), others=1, tiers=('thorough',)),
-        NStream('exhaustive=6', enum=enum_six, thorough=(64, 1500), others=1, tiers=('thorough',)),
+        NStream('random', knobs=knobs, quick=(16, 60), thorough=(32, 200)),
+        NStream('random-small', knobs=knobs_small, quick=(8, 60), thorough=(16, 200)),
+        NStream('global-only', knobs=knobs_global, quick=(8, 50), thorough=(16, 150)),
+        NStream('exhaustive<=4', enum=enum_le4, thorough=(32, 400), others=1, tiers=('thorough',)),
+        NStream('5-states', enum=layer(5, 5), thorough=(64, 330), others=1, tiers=('thorough',)),
+        NStream('6-states', enum=layer(6, 150), thorough=(64, 140), others=1, tiers=('thorough',)),
     )
     theorems = ('TM.C02_inv_of_check', 'TM.C02_init', 'TM.C02_step_partial', 'TM.C02_step_clean', 'TM.C02_step_counterexample_run', 'TM.C02_step_counterexample', 'TM.C02_history', 'TM.C02_resolve_order', 'TM.C02_exit_children_first', 'TM.C02_enter_parents_first', 'TM.C02_entered_part_closed', 'TM.C02_new_configuration')
     rule = ('a case = (state tree, transition set, script, history); non-trivial iff at least one transition with a '
